@@ -291,6 +291,10 @@ func genScenario(r *hx.Rng, id int, maxUnits int, cluster bool, refuse string) *
 			switch r.Intn(9) {
 			case 7:
 				// a command of a module: no static table knows it, the target tells its keys (COMMAND GETKEYS)
+				if cluster && nc == 1 && r.Chance(40) {
+					// a key of more than a kilobyte without a tag: its slot is the slot of all its bytes (the only command of its unit)
+					key = append(bytes.Repeat([]byte{'x'}, 1030+r.Intn(200)), []byte(fmt.Sprintf(":%d:%d:%d", u, c, r.Intn(100000)))...)
+				}
 				cm = cmd{"modq.set", [][]byte{key, val}}
 			case 8:
 				k2 := []byte(fmt.Sprintf("k2:%d:%d", u, c))
@@ -401,6 +405,15 @@ func genScenario(r *hx.Rng, id int, maxUnits int, cluster bool, refuse string) *
 			addCmd(&un, cmd{"fooq", [][]byte{ka, v}})
 		case "dyn2slots":
 			// the target reveals the keys of a module's command: two slots
+			if r.Bool() {
+				// (two keys of more than a kilobyte that differ only behind their 1100th byte)
+				stem := bytes.Repeat([]byte{'y'}, 1100)
+				la, lb := append(append([]byte{}, stem...), []byte("-a")...), append(append([]byte{}, stem...), []byte("-b")...)
+				for i := 0; fakeredis.HashSlot(la) == fakeredis.HashSlot(lb); i++ {
+					lb = append(append([]byte{}, stem...), []byte(fmt.Sprintf("-b%d", i))...)
+				}
+				ka, kb = la, lb
+			}
 			addCmd(&un, cmd{"modq.mset", [][]byte{ka, v, kb, v}})
 		case "twokeycmd":
 			// one command, two keys in two slots: whatever table or target answer the tool consults, it has to end in refusal
